@@ -240,3 +240,168 @@ Proof.
   - destruct (aget (r_transient r) key) as [v|]; [|exact I]. apply ri_notify; auto.
   - destruct (aget (r_transient r) key) as [v|]; [destruct (N.eqb v val); [exact I|]|]; apply ri_notify; auto.
 Qed.
+
+(* ------------------------------------------------------------------ RI with exceptions; states that differ in other tables *)
+Definition RIe (P : N -> Prop) (h : hub) (g : ghost) : Prop :=
+  (forall x s, ~ P x -> get_sess h x = Some s -> RIx h g x s) /\ (forall x, h_nextsid h < x -> g_rep g x = None).
+
+Lemma rie_of_ri P h g : RI h g -> RIe P h g.
+Proof. intros [S F]. split; auto. Qed.
+
+Lemma ri_nr_e (P : N -> Prop) h h' g :
+  RIe P h g -> NR noex h h' -> (forall y, P y -> get_sess h' y = None) -> RI h' g.
+Proof.
+  intros [S F] (Ss & R & Nx) Hd. constructor.
+  - intros x s' Hs'. assert (Np : ~ P x) by (intros Hp; rewrite (Hd x Hp) in Hs'; discriminate).
+    destruct (Ss x s' Hs') as [[]|[(s & Hs & K & C & Rm & [_ Pe])|[V C]]].
+    + eapply rix_olds; eauto.
+    + constructor; [intros c Hc; congruence|auto|intros V'; congruence].
+  - intros x Hx. apply F. lia.
+Qed.
+
+Lemma ri_eq h h' g : h_sessions h' = h_sessions h -> h_rooms h' = h_rooms h -> h_nextsid h' = h_nextsid h -> RI h g -> RI h' g.
+Proof.
+  intros A B C I. eapply ri_nr; [exact I|apply (nr_eq noex h h h'); auto; apply nr_refl|]. intros x s' [].
+Qed.
+
+(* ------------------------------------------------------------------ hello: a new session *)
+Lemma ri_register h g c cn b k u : is_virtual k = false -> RI h g ->
+  (forall y t, get_sess h y = Some t -> s_conn t <> Some c) ->
+  RI (fst (register h c cn b k u)) (gouts g (snd (register h c cn b k u))).
+Proof.
+  intros Hk I Hc. unfold register. set (sid := next_id h).
+  destruct (negb (is_internal k) && negb (limit_of h b =? 0) && negb match counted_of h b with [] => true | _ :: _ => false end
+            && (limit_of h b <=? N.of_nat (length (counted_of h b)))).
+  - apply (ri_quiet h); [exact I|]. split; cbn [fst snd].
+    + change (NR noex h (set_nextsid h sid)). apply nr_nextsid; [apply nr_refl|]. pose proof (next_id_gt h). unfold sid. lia.
+    + apply qouts_cons; [intros ? ? E; injection E as <- <-; reflexivity|apply qouts_nil].
+  - match goal with |- RI (fst (?H, _)) _ => set (h5 := H) end. cbn [fst snd].
+    assert (Hg : forall y, get_sess h5 y = if N.eqb y sid then Some (new_session b k u c) else get_sess h y).
+    { intros y. unfold h5. destruct (negb (is_internal k) && negb (limit_of h b =? 0)); destruct (N.eqb u 0 && negb (is_internal k));
+        try (destruct k as [|f d|]; try destruct d); unfold get_sess; cbn; apply aget_aset. }
+    assert (Hr : h_rooms h5 = h_rooms h).
+    { unfold h5. destruct (negb (is_internal k) && negb (limit_of h b =? 0)); destruct (N.eqb u 0 && negb (is_internal k));
+        try (destruct k as [|f d|]; try destruct d); reflexivity. }
+    assert (Hn : h_nextsid h5 = sid).
+    { unfold h5. destruct (negb (is_internal k) && negb (limit_of h b =? 0)); destruct (N.eqb u 0 && negb (is_internal k));
+        try (destruct k as [|f d|]; try destruct d); reflexivity. }
+    clearbody h5. unfold gouts. cbn [fold_left gout]. destruct I as [S F]. constructor.
+    + intros y t. rewrite Hg. destruct (N.eqb_spec y sid) as [->|Hne].
+      * intros E. injection E as <-. constructor; cbn [new_session s_conn s_kind s_room s_pending g_bind g_rep].
+        -- intros c' E. injection E as <-. now rewrite N.eqb_refl.
+        -- congruence.
+        -- intros _. cbn. apply F. apply next_id_gt.
+      * intros Ht. destruct (S y t Ht) as [Bn Vc Rp]. constructor; cbn [g_bind g_rep].
+        -- intros c' Hc'. destruct (N.eqb_spec c' c) as [->|]; [exfalso; exact (Hc y t Ht Hc')|now apply Bn].
+        -- exact Vc.
+        -- intros V. specialize (Rp V). unfold room_of. rewrite Hr. exact Rp.
+    + intros x Hx. cbn [g_rep]. apply F. rewrite Hn in Hx. pose proof (next_id_gt h). unfold sid in Hx. lia.
+Qed.
+
+(* ------------------------------------------------------------------ hello: a resume flushes the queue *)
+Definition hello_free (l : list smsg) : Prop := forall u v, ~ In (SHello u v) l.
+
+Lemma gouts_flush_bind c l : forall g, hello_free l -> g_bind (gouts g (flush c l)) = g_bind g.
+Proof.
+  induction l as [|m l IH]; intros g Hf; [reflexivity|]. cbn [flush map]. rewrite gouts_cons.
+  rewrite IH; [|intros u v Hin; apply (Hf u v); now right].
+  destruct m; cbn [gout]; try reflexivity; try (destruct (g_bind g c); reflexivity).
+  exfalso. apply (Hf sid user). now left.
+Qed.
+Lemma gouts_flush_rep c n l : forall g, hello_free l -> g_bind g c = Some n ->
+  forall y, g_rep (gouts g (flush c l)) y = if N.eqb y n then replayT l (g_rep g n) else g_rep g y.
+Proof.
+  induction l as [|m l IH]; intros g Hf Hb y; [cbn; destruct (N.eqb y n) eqn:E; [apply N.eqb_eq in E; now subst|reflexivity]|].
+  cbn [flush map]. rewrite gouts_cons.
+  assert (Hf' : hello_free l) by (intros u v Hin; apply (Hf u v); now right).
+  assert (Hm : (rmsg m = false /\ gout g (ToConn c m) = g) \/
+               (relm m /\ gout g (ToConn c m) = mkg (g_bind g) (fun x => if N.eqb x n then tapply (g_rep g n) m else g_rep g x))).
+  { destruct m; try (left; split; reflexivity); try (right; split; [exact Logic.I|cbn [gout]; rewrite Hb; reflexivity]).
+    exfalso. apply (Hf sid user). now left. }
+  destruct Hm as [[Hi ->]|[Hr ->]].
+  - rewrite (IH g Hf' Hb). cbn [replayT fold_left]. rewrite (tapply_irr _ _ Hi). reflexivity.
+  - rewrite IH; [|exact Hf'|exact Hb]. cbn [g_rep]. rewrite N.eqb_refl. cbn [replayT fold_left].
+    destruct (N.eqb_spec y n); reflexivity.
+Qed.
+
+Lemma close_conn_gone h c cn n : aget (h_conns h) c = Some cn -> c_sess cn = Some n -> get_sess (fst (close_conn h c)) n = None.
+Proof.
+  intros Hc Hn. unfold close_conn. rewrite Hc, Hn.
+  match goal with |- context [close_session ?H n] => pose proof (close_session_gone H n) as D; destruct (close_session H n) as [h3 o3] end.
+  exact D.
+Qed.
+
+Lemma ri_resume h g c cn i : Inv h -> RI h g ->
+  (forall y t, get_sess h y = Some t -> s_conn t <> Some c) ->
+  (forall n s, i = IdPriv n -> get_sess h n = Some s -> hello_free (s_pending s)) ->
+  RI (fst (do_hello h c cn (HResume i))) (gouts g (snd (do_hello h c cn (HResume i)))).
+Proof.
+  intros Iv I Hc Hf. unfold do_hello.
+  assert (Qerr : forall e, qouts [ToConn c (SError e)]) by (intros e; apply qouts_cons; [intros ? ? E; injection E as <- <-; reflexivity|apply qouts_nil]).
+  destruct (throttled h (c_addr cn) ACT_RESUME); [apply (ri_quiet h); [exact I|split; [apply nr_refl|apply Qerr]]|].
+  destruct i as [n| | |]; try (apply (ri_quiet h); [exact I|split; [cbn [fst]; nrs; apply nr_refl|apply Qerr]]).
+  destruct (get_sess h n) as [s|] eqn:Hs; [|apply (ri_quiet h); [exact I|split; [apply nr_refl|apply Qerr]]].
+  destruct (is_virtual (s_kind s)) eqn:Hv; [apply (ri_quiet h); [exact I|split; [apply nr_refl|apply Qerr]]|].
+  specialize (Hf n s eq_refl Hs).
+  (* the takeover *)
+  assert (T : nres noex h (match s_conn s with
+                           | Some c' => if N.eqb c' c then (h, [])
+                                        else send_conn (match aget (h_conns h) c' with
+                                                        | Some cn' => set_conns h (aset (h_conns h) c' (mkconn (c_addr cn') None (c_expect cn')))
+                                                        | None => h end) c' (SBye B_session_resumed)
+                           | None => (h, []) end)).
+  { destruct (s_conn s) as [c'|]; [|split; [apply nr_refl|apply qouts_nil]].
+    destruct (N.eqb c' c); [split; [apply nr_refl|apply qouts_nil]|].
+    apply nr_send_conn; [reflexivity|]. destruct (aget (h_conns h) c'); [change (NR noex h h)|]; apply nr_refl. }
+  destruct T as [B1 Q1].
+  destruct (match s_conn s with
+            | Some c' => if N.eqb c' c then (h, []) else send_conn _ c' (SBye B_session_resumed)
+            | None => (h, []) end) as [h1 outs1]. cbn [fst snd] in B1, Q1.
+  set (s1 := sess_pending (sess_conn s (Some c)) []).
+  set (h5 := set_conns (set_clients (set_expired (put_sess h1 n s1) (nrem n (h_expired (put_sess h1 n s1))))
+               (nadd n (h_clients (set_expired (put_sess h1 n s1) (nrem n (h_expired (put_sess h1 n s1)))))))
+               (aset (h_conns (set_clients (set_expired (put_sess h1 n s1) (nrem n (h_expired (put_sess h1 n s1))))
+               (nadd n (h_clients (set_expired (put_sess h1 n s1) (nrem n (h_expired (put_sess h1 n s1)))))))) c (mkconn (c_addr cn) (Some n) false))).
+  set (L := upto_closing (s_room s) (s_pending s)).
+  set (outs := outs1 ++ ToConn c (SHello n (sess_userid h n s)) :: flush c L).
+  assert (HfL : hello_free L) by (intros u v Hin; apply (Hf u v); eapply upto_closing_incl; exact Hin).
+  set (gb := mkg (fun x => if N.eqb x c then Some n else g_bind g x) (g_rep g)).
+  assert (Hgo : gouts g outs = gouts gb (flush c L)).
+  { unfold outs. rewrite gouts_app, (gouts_quiet _ _ Q1). reflexivity. }
+  assert (Hgb : g_bind (gouts g outs) = g_bind gb) by (rewrite Hgo; now apply gouts_flush_bind).
+  assert (Hgr : forall y, g_rep (gouts g outs) y = if N.eqb y n then replayT L (g_rep g n) else g_rep g y).
+  { intros y. rewrite Hgo. apply (gouts_flush_rep c n L gb HfL). cbn. now rewrite N.eqb_refl. }
+  assert (I1 : RI h1 g) by (eapply ri_nr; [exact I|exact B1|intros x s' []]).
+  assert (Hg5 : forall y, get_sess h5 y = if N.eqb y n then Some s1 else get_sess h1 y) by (intros y; unfold h5, get_sess; cbn; apply aget_aset).
+  assert (Hle : n <= h_nextsid h) by (apply (inv_ids h Iv); eexists; exact Hs).
+  assert (R5 : RIe (fun y => y = n /\ queue_closes s = true) h5 (gouts g outs)).
+  { split.
+    - intros y t Np. rewrite Hg5. destruct (N.eqb_spec y n) as [->|Hne].
+      + intros E. injection E as <-. assert (Hq : queue_closes s = false) by (destruct (queue_closes s); [exfalso; apply Np; auto|reflexivity]).
+        destruct (ri_sess _ _ I n s Hs) as [Bn Vc Rp]. constructor.
+        * intros c' E. cbn in E. injection E as <-. rewrite Hgb. cbn. now rewrite N.eqb_refl.
+        * cbn. congruence.
+        * intros _. specialize (Rp Hv). cbn [s1 s_room s_pending sess_pending sess_conn upd_sess]. cbn [replayT fold_left].
+          rewrite Hgr, N.eqb_refl. unfold L. rewrite (upto_closing_none s Hq).
+          destruct (s_room s) as [k|]; [|exact Rp]. destruct Rp as (Nz & d & Hd & Hroom). split; [exact Nz|]. exists d. split; [exact Hd|].
+          intros r' Hr'. destruct B1 as (_ & Rr & _). destruct (Rr k r' Hr') as (r0 & Hr0 & T0). rewrite T0. now apply Hroom.
+      + intros Ht. destruct (ri_sess _ _ I1 y t Ht) as [Bn Vc Rp]. constructor.
+        * intros c' Hc'. rewrite Hgb. cbn. destruct (N.eqb_spec c' c) as [->|]; [|now apply Bn].
+          exfalso. destruct B1 as (Ss & _ & _). destruct (Ss y t Ht) as [[]|[(t0 & Ht0 & _ & C0 & _)|[_ C0]]]; [|congruence].
+          apply (Hc y t0 Ht0). congruence.
+        * exact Vc.
+        * intros V. specialize (Rp V). rewrite Hgr. destruct (N.eqb_spec y n); [contradiction|]. exact Rp.
+    - intros x Hx. change (h_nextsid h5) with (h_nextsid h1) in Hx. destruct B1 as (_ & _ & Nx).
+      rewrite Hgr. destruct (N.eqb_spec x n) as [->|]; [lia|]. apply (ri_fresh _ _ I). lia. }
+  fold s1. fold h5. fold L. fold outs.
+  destruct (queue_closes s) eqn:Hq.
+  - pose proof (nr_close_conn noex h5 h5 c (nr_refl _ _)) as [B6 Q6].
+    assert (D : get_sess (fst (close_conn h5 c)) n = None).
+    { apply (close_conn_gone h5 c (mkconn (c_addr cn) (Some n) false)); [unfold h5; cbn; apply aget_aset_same|reflexivity]. }
+    destruct (close_conn h5 c) as [h6 outs6]. cbn [fst snd] in *. rewrite gouts_app, (gouts_quiet _ _ Q6).
+    eapply ri_nr_e; [exact R5|exact B6|]. intros y [-> _]. exact D.
+  - cbn [fst snd]. eapply ri_nr_e; [exact R5|apply nr_refl|]. intros y [_ E]. discriminate E.
+  - apply (ri_quiet h); [exact I|split; [change (NR noex h h); apply nr_refl|apply Qerr]].
+  - apply (ri_quiet h); [exact I|split; [change (NR noex h h); apply nr_refl|apply Qerr]].
+  - apply (ri_quiet h); [exact I|split; [change (NR noex h h); apply nr_refl|apply Qerr]].
+Qed.
